@@ -262,8 +262,41 @@ pub fn case_child(args: &Args) {
             clients[i] = Some(c);
             continue;
         }
-        let kind = rng.below(20);
+        let kind = rng.below(22);
         let me = who(clients[i].as_ref().unwrap());
+        if kind >= 20 {
+            // burst: 2..5 scrapes written back to back on this connection before anything is read
+            let n = 2 + rng.below(4) as usize;
+            let mut acts: Vec<String> = Vec::new();
+            {
+                let c = clients[i].as_mut().unwrap();
+                for _ in 0..n {
+                    let m = 1 + rng.below(3) as usize;
+                    let hs: Vec<[u8; 20]> = (0..m).map(|j| if rng.chance(4, 5) { *rng.pick(&pool) } else { let mut h = [0x7b; 20]; h[0] = j as u8; h }).collect();
+                    let items: Vec<String> = hs.iter().map(|h| format!("\"{}\"", id_str(h))).collect();
+                    let text = format!("{{\"action\":\"scrape\",\"info_hash\":[{}]}}", items.join(","));
+                    let _ = c.ws.write(Message::text(text));
+                    acts.push(format!("CScrape (Some {})", cq::list(&hs.iter().map(cq::id20).collect::<Vec<_>>())));
+                }
+                let _ = c.ws.flush();
+            }
+            let mut got = collect(&mut clients, Duration::from_millis(5000), Duration::from_millis(60));
+            // all n replies are expected: keep collecting for a while if some are missing
+            let deadline = Instant::now() + Duration::from_secs(3);
+            while got.len() < n && Instant::now() < deadline {
+                let more = collect(&mut clients, Duration::from_millis(200), Duration::from_millis(60));
+                got.extend(more);
+            }
+            let terms: Vec<String> = got.iter().map(|g| g.2.clone()).collect();
+            println!("ITEM WSysBurst {} {} {}", me, cq::list(&acts), cq::list(&terms));
+            // the tracker may have torn the connection down
+            if let Some(c) = clients[i].as_mut() {
+                if c.ws.write(Message::Ping(Vec::new().into())).is_err() || c.ws.flush().is_err() {
+                    clients[i] = None;
+                }
+            }
+            continue;
+        }
         let (consumer, conn) = {
             let c = clients[i].as_ref().unwrap();
             (c.consumer, c.conn)
